@@ -63,13 +63,13 @@ def _weights(prop, rng):
     w = {'new_generated': 2, 'new_hand': 2, 'add_node': 4, 'link': 6, 'remove_node': 3,
          'attach': 2, 'add_attacker': 3, 'remove_attacker': 2, 'compromise': 6, 'undo': 3,
          'analyse': 2, 'relabel': 3, 'prune': 1, 'copy': 1, 'saveload': 1, 'regenerate': 1,
-         'model_edit': 1, 'add_attackers_late': 0, 'surface_query': 0, 'surface_update': 0, 'edit_inplace': 0,
+         'model_edit': 1, 'reload_old': 0, 'add_attackers_late': 0, 'surface_query': 0, 'surface_update': 0, 'edit_inplace': 0,
          'defense_query': 0}
     if prop == 'C09':
         w.update(remove_node=5, regenerate=2, add_node=5, copy=1, saveload=1)
     elif prop == 'C10':
-        w.update(saveload=5, attach=3, analyse=3, prune=2, edit_inplace=2, add_attacker=4,
-                 model_edit=2)
+        w.update(saveload=5, attach=3, analyse=3, prune=2, edit_inplace=3, add_attacker=4,
+                 model_edit=2, reload_old=2)
     elif prop == 'C11':
         w.update(compromise=10, undo=6, remove_attacker=5, attach=4, add_attacker=5, remove_node=2,
                  add_attackers_late=2, new_generated=3)
@@ -196,6 +196,7 @@ class GraphWorld(BaseWorld):
         self.prop = cfg['prop']
         self.armed = {self.prop}
         self._tmp_armed = set()
+        self.old_files = []
         self._state_digest = ''
         # the model (world M machinery, nothing armed)
         mcfg = dict(cfg['mcfg'])
@@ -381,6 +382,16 @@ class GraphWorld(BaseWorld):
                 if r.raised or r.value is not None:
                     self.fail('C09.index', f'after {where}: get_node_by_full_name({rn!r}) still '
                                            f'returns a node that was removed')
+        # names the steps had in the file this graph was loaded from (asset:step; after a load
+        # without the model the nodes go by id:step): whatever such a name resolves to, it is
+        # never a node that is not in the graph
+        in_graph = {id(n) for n in g.nodes}
+        for fn in getattr(slot, 'file_names', [])[:40]:
+            r = call(g.get_node_by_full_name, fn)
+            if not r.raised and r.value is not None and id(r.value) not in in_graph:
+                self.fail('C09.index', f'after {where}: get_node_by_full_name({fn!r}) (the name the '
+                                       f'step had in the file the graph was loaded from) returns a '
+                                       f'node that is not in the graph')
         aids = [a.id for a in g.attackers]
         for a in g.attackers:
             if aids.count(a.id) == 1:
@@ -472,6 +483,18 @@ class GraphWorld(BaseWorld):
                 if (self.state_changes + i) % 3:
                     continue
             s = self.slots[i]
+            if self.prop == 'C14' and s.copied_from is not None and (only is None or i == only):
+                # a copy that is equal to its original behaves like it: whatever an operation
+                # on a copy gets wrong (hidden state that was not copied, ...) is C14's business
+                self._tmp_armed = {'C09', 'C11'}
+                try:
+                    self.check_structure(s, f'{where} [graph {i}, a copy]')
+                    self.check_ref(s, f'{where} [graph {i}, a copy]', 'C14.behaves')
+                except Violation as v:
+                    raise Violation('C14.behaves', v.message) from None
+                finally:
+                    self._tmp_armed = set()
+                continue
             self.check_structure(s, f'{where} [graph {i}]')
             self.check_ref(s, f'{where} [graph {i}]',
                            'C14.independent' if (self.prop == 'C14' and only is not None
@@ -484,6 +507,19 @@ class GraphWorld(BaseWorld):
         if not live:
             kind = 'new_hand' if rng.random() < self.cfg.get('p_hand', 0.5) else 'new_generated'
             return getattr(self, 'gen_' + kind)(rng, None)
+        al = getattr(self, '_after_load', None)
+        if self.prop == 'C10' and al is not None and al[0] in live:
+            al[2] += 1
+            if al[2] == 1 and rng.random() < 0.5:
+                op = self.gen_edit_inplace(rng, al[0])
+                if op is not None:
+                    return op
+            elif al[2] == 2:
+                self._after_load = None
+                if rng.random() < 0.6 and len(live) < 4:
+                    return {'op': 'reload_old', 'i': al[1]}
+            else:
+                self._after_load = None
         want, self._copy_next = getattr(self, '_copy_next', None), None
         if self.prop == 'C14' and want in live and len(live) < 4 and rng.random() < 0.5:
             return self.gen_copy(rng, want)
@@ -710,8 +746,17 @@ class GraphWorld(BaseWorld):
     def gen_prune(self, rng, gi):
         return {'op': 'prune', 'g': gi}
 
+    def gen_reload_old(self, rng, gi):
+        live = [i for i, f in enumerate(self.old_files) if os.path.exists(f[0])]
+        if not live or len(self.live_slots()) >= 4:
+            return None
+        return {'op': 'reload_old', 'i': rng.choice(live)}
+
     def gen_copy(self, rng, gi):
-        return {'op': 'copy', 'g': gi}
+        op = {'op': 'copy', 'g': gi}
+        if rng.random() < 0.3:
+            op['probe_ids'] = [self.new_nh(), self.new_nh()]
+        return op
 
     def gen_saveload(self, rng, gi):
         s = self.slots[gi]
@@ -1460,6 +1505,22 @@ class GraphWorld(BaseWorld):
         s.mutated_since_copy = False
         s2.mutated_since_copy = False
         self.check_ref(s2, 'deepcopy [the copy]', 'C14.equal')
+        if op.get('probe_ids') and self.prop == 'C14':
+            # the same thing done to both right away has the same effect: a node added to the
+            # original and one added to the copy get the same id
+            a_, b_ = (self.AttackGraphNode(type='or', name=f'probe{len(self.slots)}') for _ in range(2))
+            ra_, rb_ = call(s.g.add_node, a_), call(g2.add_node, b_)
+            self.count('oracle:C14.equal')
+            if ra_.raised or rb_.raised or a_.id != b_.id:
+                self.fail('C14.equal', f'a node added to the original got id '
+                          f'{"(raised)" if ra_.raised else a_.id}, the same node added to the fresh copy '
+                          f'{"(raised)" if rb_.raised else b_.id}')
+            for slot_, node_, hh in ((s, a_, op['probe_ids'][0]), (s2, b_, op['probe_ids'][1])):
+                slot_.ref.add_node(RNode(hh, id=node_.id, name=node_.name, type='or', asset=None, ttc=None,
+                                         defense_status=None, existence_status=None, tags=[],
+                                         mitre=None, extras={}))
+                slot_.nmap[hh] = node_
+            self.count('probe:same_node_added_to_original_and_copy')
         self.check_all('deepcopy', only=len(self.slots) - 1)
         self.count('probe:copy_of_copy') if s.copied_from is not None else None
         return 'ok'
@@ -1506,6 +1567,7 @@ class GraphWorld(BaseWorld):
             self.fail('C10.load', f'load_from_file raised {o.exc!r} on a file written by save_to_file')
         g2 = o.value
         ref = s.ref
+        s.file_names = sorted(n.full_name for n in ref.nodes.values())
         if model is None:
             for n in ref.nodes.values():
                 n.asset = None
@@ -1578,6 +1640,35 @@ class GraphWorld(BaseWorld):
         s.kind = 'loaded' if s.kind != 'hand' else 'hand'
         self._touch(s)
         self.check_all(where, only=op['g'])
+        if not fault:
+            self.old_files.append((path, fmt, model is not None, ref.clone(), op['g']))
+            self._after_load = [op['g'], len(self.old_files) - 1, 0]     # (C10) edit, then load again
+        return 'ok'
+
+    def do_reload_old(self, op):
+        """A graph file written earlier in the run is loaded once more, after the graph that
+        came out of it has been edited in place: it still loads to what it held when it was
+        written (nothing cached, nothing shared with the first load)."""
+        if op['i'] >= len(self.old_files) or len(self.live_slots()) >= 4:
+            raise Unresolvable()
+        path, fmt, with_model, ref0, _ = self.old_files[op['i']]
+        if not os.path.exists(path):
+            raise Unresolvable()
+        o = call(self.AttackGraph.load_from_file, path, self.model) if with_model \
+            else call(self.AttackGraph.load_from_file, path)
+        where = f'second load of a *.{fmt} file written earlier in the run'
+        if o.raised:
+            self.fail('C10.load', f'{where} raised {o.exc!r}')
+        g2 = o.value
+        s2 = Slot(g2, ref0.clone(), 'loaded')
+        by_id = {n.id: n for n in g2.nodes}
+        s2.nmap = {h: by_id[ref0.nodes[h].id] for h in ref0.order if ref0.nodes[h].id in by_id}
+        aby = {a.id: a for a in g2.attackers}
+        s2.amap = {k: aby[ref0.attackers[k].id] for k in ref0.attacker_order if ref0.attackers[k].id in aby}
+        self.slots.append(s2)
+        self.count('probe:graph_file_loaded_a_second_time')
+        self.check_ref(s2, where, 'C10.nodes')
+        self.check_all(where, only=len(self.slots) - 1)
         return 'ok'
 
     # -- regenerate (C09)
